@@ -15,12 +15,22 @@ Proof.
   rewrite firstn_app, Nat.sub_diag, firstn_all. cbn [firstn]. apply app_nil_r.
 Qed.
 
-(* one line of text comes back as it is, whatever its last character (the old rstrip ate blanks and backslashes) *)
-Lemma multiline_noquote_line : forall c r, mem_c nl (c :: r) = false -> splitlines (c :: r) = [c :: r] ->
+(* one line of text that does not end in a blank comes back as it is - also when it ends in a backslash (the old
+   rstrip ate it) *)
+Lemma rstrip_by_last_false : forall p (s : str) l, last_c s = Some l -> p l = false -> rstrip_by p s = s.
+Proof.
+  intros p s l Hl Hp. apply last_c_spec in Hl. destruct Hl as [r E]. subst s.
+  unfold rstrip_by. rewrite rev_app_distr. cbn [rev app dropwhile]. rewrite Hp.
+  change (l :: rev r) with (rev [l] ++ rev r). rewrite <- rev_app_distr. apply rev_involutive.
+Qed.
+
+Lemma multiline_noquote_line : forall c r l, splitlines (c :: r) = [c :: r] ->
+    last_c (c :: r) = Some l -> mem_c l (L " " ++ [nl]) = false ->
     multiline_noquote (c :: r) = c :: r.
 Proof.
-  intros c r _ Hs. unfold multiline_noquote. rewrite Hs. cbn [map join].
-  change (L " \" ++ [nl]) with [sp; ch 92; nl]. apply drop_last3_app.
+  intros c r l Hs Hl Hm. unfold multiline_noquote. rewrite Hs. cbn [map join].
+  change (L " \" ++ [nl]) with [sp; ch 92; nl]. rewrite drop_last3_app.
+  unfold rstrip_chars. apply (rstrip_by_last_false _ _ l Hl). exact Hm.
 Qed.
 
 (* ---- quote ---- *)
